@@ -3,12 +3,15 @@
     conditions are the definitions GENERATED from /repo's source on this run, and about the
     generated frozenlist / __setattr__ tables.  The spec side (kind_of, uses, leaked, legal)
     is written over the history of operations, independently of the state the code keeps.
-    NOT covered by any theorem: how nested tuples / lists / structs are taken apart and
-    rebuilt (unpack_guppy_object, guppy_object_from_py, update_packed_value recursion);
-    that part (ModelTree.v) is validated differentially only. *)
+    Round 2: the TREE layer (ModelTree.v: unpack_guppy_object, guppy_object_from_py,
+    update_packed_value, trace_call, statements, trace_function over nested tuples / lists /
+    structs) now has theorems too: frozen flags reach every level (per-type-case flags are
+    generated), frozen values reject every mutation statement, and every tree-level run is a
+    run of leaf operations, so use_once / leak_detected hold for every GuppyObject inside any
+    nesting.  Still only differentially validated: that ModelTree.v itself matches the code. *)
 From Coq Require Import List Bool Arith String ZArith.
 Import ListNotations.
-From V.C22 Require Import GenTracing ModelTracing ModelFrozen ModelTree Proofs.
+From V.C22 Require Import GenTracing ModelTracing ModelFrozen ModelTree Proofs ProofsTree.
 Local Open Scope nat_scope.
 
 (** A non-copyable object passes `_use_wire` at most once between (re)assignments — at every
@@ -99,6 +102,82 @@ Theorem owned_inputs_frozen :
              unpack_struct_frozen f = f /\ unpack_list_frozen f = f).
 Proof. repeat split; try reflexivity; destruct f; reflexivity. Qed.
 Print Assumptions owned_inputs_frozen.
+
+(* ------------------------------------------------------------------ tree layer (round 2) *)
+(** For an owned argument (and any unpacking with frozen=True) every list and struct object
+    reachable through ANY nesting of tuples, lists and structs carries the frozen flag.  The
+    flags handed down per type case (tuple / array / struct) are generated from the source. *)
+Theorem unpack_freezes_all_levels : forall fuel sd id ts v ts',
+  hwf ts -> unpack fuel sd id (input_frozen false) ts = Ok (v, ts') -> Frozen ts' v.
+Proof. intros fuel sd id ts v ts' W H. rewrite owned_input_frozen in H. apply (unpack_frozen fuel sd id ts v ts' W H). Qed.
+Print Assumptions unpack_freezes_all_levels.
+
+(** ... components of frozen values are frozen (so the theorem below applies at every path) *)
+Theorem frozen_components : forall ts v i c, Frozen ts v ->
+  match v with
+  | VTup vs => nth_error vs i = Some c
+  | VList loc => exists fr vs, lists ts loc = Some (fr, vs) /\ nth_error vs i = Some c
+  | VStruct loc => exists fr sid vs, strs ts loc = Some (fr, sid, vs) /\ nth_error vs i = Some c
+  | _ => False
+  end -> Frozen ts c.
+Proof. exact Frozen_component. Qed.
+Print Assumptions frozen_components.
+
+(** ... and every in-place mutation statement whose target evaluates to a frozen list / struct
+    (or a tuple) is rejected: 13 list mutators, item assignment, field assignment. *)
+Theorem frozen_values_reject_mutation : forall sd en ts e x,
+  (forall m r rv loc, eval en e ts = Ok r -> eval en x (snd r) = Ok rv -> fst r = VList loc ->
+     Frozen (snd rv) (VList loc) -> exec sd (SMut e m x) en ts = Err EFrozen) /\
+  (forall i r rv loc, eval en x ts = Ok rv -> eval en e (snd rv) = Ok r -> fst r = VList loc ->
+     Frozen (snd r) (VList loc) -> exec sd (SSetIdx e i x) en ts = Err EFrozen) /\
+  (forall f r rv loc, eval en x ts = Ok rv -> eval en e (snd rv) = Ok r -> fst r = VStruct loc ->
+     Frozen (snd r) (VStruct loc) ->
+     exec sd (SSetFld e f x) en ts = Err EFrozen \/ exec sd (SSetFld e f x) en ts = Err EPy) /\
+  (forall i r rv vs, eval en x ts = Ok rv -> eval en e (snd rv) = Ok r -> fst r = VTup vs ->
+     exec sd (SSetIdx e i x) en ts = Err EPy).
+Proof.
+  intros. repeat split; intros.
+  - eapply mut_frozen_rejected; eassumption.
+  - eapply setidx_frozen_rejected; eassumption.
+  - eapply setfld_frozen_rejected; eassumption.
+  - eapply setidx_tuple_rejected; eassumption.
+Qed.
+Print Assumptions frozen_values_reject_mutation.
+
+(** Every tree-level run is a run of leaf operations (tree_use_once + tree_leak_detected):
+    for every comptime body over nested tuples / lists / structs,
+    - accepted  => the GuppyObjects it touched form a LEGAL leaf history in which nothing is leaked
+                   (so by use_once every non-copyable leaf, at any depth, was used at most once between
+                   (re)assignments, and every non-droppable one was used);
+    - "already used" for object id => id is non-copyable and had exactly one use since its creation /
+                   last re-assignment in a reachable leaf history (a genuine second use, whether of a
+                   leaf or of a packed container object);
+    - "leaked" for object id => id is a non-droppable object with no use since creation / re-assignment,
+                   and no leak error is raised anywhere but in the final check. *)
+Theorem tree_refines_leaf : forall sd params rty body,
+  match trace_function sd params rty body with
+  | Ok _ => exists ops, wf_ops ops /\ legal [] ops /\ ~ exists id, leaked (rev ops) id
+  | Err (ELeak id) => exists ops s, wf_ops ops /\ lrun ops st0 = Ok s /\ leaked (rev ops) id
+  | Err (EAlreadyUsed id) =>
+      exists ops s k, wf_ops ops /\ lrun ops st0 = Ok s /\ kind_of (rev ops) id = Some k /\
+                      copyable k = false /\ uses (rev ops) id = 1
+  | Err _ => True
+  end.
+Proof. exact trace_function_refines_lemma. Qed.
+Print Assumptions tree_refines_leaf.
+
+(** The building blocks refine too; in particular update_packed_value (with its fresh object)
+    is a sequence of leaf steps in which each GuppyObject of the subtree gets one LReassign
+    (reassign_makes_available), and packing (from_py) / unpacking are sequences of LCreate / LUse. *)
+Theorem tree_ops_refine_leaf : forall fuel sd ts,
+  (forall id fr, Sim (leaf ts) (unpack fuel sd id fr ts) (fun r => leaf (snd r))) /\
+  (forall v, Sim (leaf ts) (from_py fuel sd v ts) (fun r => leaf (snd r))) /\
+  (forall v t, Sim (leaf ts) (upd_fresh fuel sd v t ts) (fun r => leaf (snd r))) /\
+  (forall params rty args, Sim (leaf ts) (call_fn sd params rty args ts) (fun r => leaf (snd r))).
+Proof.
+  intros. repeat split; intros; [apply unpack_sim | apply from_py_sim | apply upd_fresh_sim | apply call_fn_sim].
+Qed.
+Print Assumptions tree_ops_refine_leaf.
 
 (** the hypotheses are satisfiable on non-trivial scripts *)
 Definition qubit_k := mkKind false false.
